@@ -57,6 +57,10 @@ func c12Docs(tier string) *TextSet {
 				docs = append(docs, v)
 			}
 		}
+		// string values that a text-level pre-processing of the patch could mistake for something else
+		for _, sv := range []string{"x /*", "*/ y", "see // below", "/* c */", "# c", "a\r\nb", "\ufffd", "\\u0000"} {
+			docs = append(docs, map[string]interface{}{"a": sv, "b": nil, "c": "*/ y"}, map[string]interface{}{"n": map[string]interface{}{"s": sv}}, sv)
+		}
 		for _, depth := range []int{12, 40, 110} {
 			for _, leaf := range []V{map[string]interface{}{"x": nil, "y": 1.0}, map[string]interface{}{"x": 1.0, "z": 2.0}, map[string]interface{}{}} {
 				var v V = leaf
